@@ -20,6 +20,17 @@ tolerance is relative to it); ':sort=False' - mouette.config.sort_neighborhoods 
 processed and judged; ':face_order=rotated' - every face of the list in position 0 in turn (also under ':sort=False');
 ':arg=numpy_int' - face / cell / edge indices handed over as numpy.int64.
 
+':corner_start=rotated' - every face listed from another corner (same cyclic order; cells: orientation-preserving re-listings;
+polyline edges: larger end first).
+
+History dimension, several blocks (C13.<family>.block_history.*): the operations of an explored sequence one per editing block
+on ONE mesh object, followed by a block without operation, the editor objects made afresh per block / one editor object
+entered again and again / all editor objects constructed before the first block; connectivity queried between the blocks
+or never; split_double_boundary_edges_triangles called a second time on the mesh it handed back.
+
+Storage format: every vertex of a mesh handed back (and of the object passed in) is stored as the constructors document it
+(RawMeshData.prepare: cast to mouette.Vec; three float64) - surfaces, volumes, polylines.
+
 Call forms and defaults (input classes name the parameter and the form): the documented signatures are pinned in SIGNATURES
 (names, order, defaults - copied from the unchanged tree, not read at run time). Every entry point is called with each
 optional argument omitted (one at a time, all together: constructor x operation), with its arguments by keyword, with the
@@ -41,7 +52,9 @@ TECHNIQUE = ("explicit-state BFS over operation sequences inside one editing blo
              "queried before, not queried} x {completion switches on, off} x {block completed, left by the caller's exception, "
              "left by a rejected argument}, vs an exact reference refinement model + independent validity/topology/"
              "connectivity oracles; deviations of the setting (unit of length 2^-100 / 2^100, config.sort_neighborhoods off, "
-             "face order, numpy integer indices) over a representative subset with the same clauses; call forms (optional arguments "
+             "face order, corner from which every face / cell is listed, numpy integer indices) over a representative subset with the same clauses; "
+             "histories of several editing blocks on one mesh object x {editor object fresh per block, one editor re-used, editors constructed "
+             "before the first block} x {connectivity queried between the blocks, never}; call forms (optional arguments "
              "omitted one at a time / all together, arguments by keyword, sides given, numpy count) vs the fully explicit positional "
              "call with the pinned documented defaults, + pinned signature table vs inspect.signature")
 RULE = ("inputs: labelled oriented manifold complexes SURF (triangle, quad, mixed, pentagon), ZOO specimens, all conforming "
@@ -59,7 +72,17 @@ RULE = ("inputs: labelled oriented manifold complexes SURF (triangle, quad, mixe
         "specimens, every TET complex (single operations), every GRAPH (<= 2 splits) once more with all coordinates x 2^-100 "
         "and x 2^100, with config.sort_neighborhoods off (here also every rotation of the face list and the sorted cell "
         "orientation, connectivity queried before or not), with numpy.int64 indices; every rotation of the face list of the "
-        "classes under the default configuration (with and without edge completion); "
+        "classes under the default configuration (with and without edge completion); corner of listing: per SURF class every combination of "
+        "{first, second} corner (thorough: every corner) over its faces with >= 4 sides, the class with all its triangles started at their second / third "
+        "corner, 7 ZOO specimens with every face rotated by 1 (thorough: 1, 2, 3), every TET complex with every cell re-listed by an even permutation "
+        "(quick: 2 of the 11, thorough: all 11), every GRAPH with every edge listed larger end first - single operations (thorough: + the two repeated "
+        "refinements), not queried; "
+        "block histories: per input every explored single operation and the first explored pair of every class (quick / ZOO: class = replaces the "
+        "containers or not; thorough SURF: class = entry point; volume: class = entry point, quick: single operations on the first and the last explored "
+        "argument of each entry point), run as k + 1 blocks (one operation each + one block without operation) on one mesh object with the editor "
+        "objects {made per block, one object re-used, all made before the first block} x {connectivity never queried, queried before the first and "
+        "between all blocks (not for editors made per block)}; split_double_boundary_edges_triangles twice on every triangle input; "
+        "storage format of the vertices: every mesh handed back by a completed block / call of the main exploration, of the histories, and every object passed in; "
         "call forms: per SURF class / 7 ZOO specimens every single operation of the initial state + loop_subdivision(2), "
         "subdivide_triangles_6(2); per TET complex split_cell_as_fan / split_tet_from_face_center on the first and last element; "
         "per GRAPH split_edge on the first and last edge; each as one complete block in the forms {constructor: explicit, "
@@ -81,6 +104,9 @@ ASSUMPTIONS = [
     "unit of length: the statement knows no unit, so the same complexes with every coordinate multiplied by s = 2^-100 or 2^100 must be refined the same way (new vertices at the scaled centres, total area x s^2, total volume x s^3, total length x s, counts / topology / connectivity unchanged). s is a power of two, so the scaled inputs and the conversion of every observed coordinate back into units of s are exact (checked per coordinate; a coordinate that does not convert exactly is reported); the oracle then runs unchanged, i.e. its tolerance 1e-9 x coordinate scale and its exact area / volume comparisons are relative to the unit. Measured on the unchanged library: results are bitwise scale-equivariant for every s = 2^e with |e| <= 340 (surface, volume, polyline operations); +-100 is used because s^6 is still a normal double there (squared volumes of a careful implementation do not over/underflow) while every absolute threshold from 1e-6 to 1e-16 on a length, an area or a volume is crossed (edge lengths 1e-30 .. 1e-28 / 1e30 .. 1e32)",
     "config.sort_neighborhoods is a documented switch of mouette.config (vertex rings unsorted); the statement does not depend on it. It is off from before the mesh is built until the last answer has been judged (restored in a finally); the accessor tables of C01 / C03 are instantiated for that value (ring answers are then judged as sets)",
     "face order: rotating the face list of a complex gives another admissible input; every face of every SURF class is put in position 0 in turn (index 0 is also the first argument tried for every indexed operation)",
+    "corner of listing: a face is a cyclic sequence of vertices, so listing it from another corner gives the same oriented complex (the oracle compares faces up to rotation, the family is closed under it); which diagonal splits a quad is left open by the documentation, so the reference model accepts either one as long as the result is a manifold - two quads that have the same pair of vertices as opposite corners cannot both be split along it. A tetrahedron re-listed by an even permutation is the same oriented cell. An edge of a polyline listed larger end first is admissible input (the constructors sort it: RawMeshData.prepare)",
+    "block histories: nothing in the documentation restricts an editor object to one `with` block, an editor to be constructed immediately before its block, or a mesh to one block; the mesh a block hands back is a mesh 'its documentation admits'. Demanded per block are the clauses of the statement only (accepted; elements at the end of the block = elements handed back; the operation refines the mesh the previous block handed back: equal to the state validated for the same operations in one block, else validated against the reference model from the previous state; valid mesh in the documented storage format; object passed in = mesh handed back, or unchanged - the next block is then judged as refining the unchanged mesh; a block without operation changes no element), after the last block topology (volume: + exact total volume) and connectivity answers (accessor domains capped at 12). A face index given to a later volume block indexes the face list handed back by the previous block",
+    "storage format: RawMeshData.prepare ('called by the constructors of data structures') documents 'On vertices: casts 3D vectors to mouette.Vec'; library code reads vertices through the Vec interface (.x/.y/.z, .norm()). A valid mesh handed back by a subdivision entry point therefore stores every vertex as a Vec (isinstance) of three float64; row types of edges / faces / cells are NOT judged (the unchanged library hands back tuples or lists depending on the operation)",
     "indices given as numpy.int64: the documentation says 'int'; an index read from a numpy array is the usual way to obtain one and the unchanged library accepts it everywhere, so the same clauses are demanded (only the operations that take an index are run)",
     "call forms: the signature is the documentation of a default (SIGNATURES pins names, order and defaults of the unchanged tree; docstring prose is not used). Omitting an optional argument must mean passing its documented default, passing arguments by keyword must mean passing them positionally in the documented order: demanded is exact equality of everything observable with the fully explicit positional block on the same input - text printed, raw state after the operation (vertices, faces, cells, edge set), the mesh handed back (containers, corners, edge set), whether the object passed in equals it, exception class. `sides` of triangulate_face is documented as 'the set of all sides of faces of the mesh, as sorted pairs. Computed if not provided': a fresh set of the current sides computed by the driver must give the result of the computed one (the set may be updated by the call - not judged). `verbose` only decides whether the editor's inherited log() prints: off (documented default) must be silent, on must print the probe, the meshes must not depend on it. A repetition count given as numpy.int64 must mean the Python int (the unchanged library accepts it). The signature guard tolerates additional trailing parameters that have a default and a required parameter that acquires one (counted); everything else that differs from the pinned table is a violation of C13.defaults.signature",
     "history dimension: a block left by an exception. The unchanged library rebuilds the object passed in whenever the block is left (its __exit__ ignores the exception and lets it propagate), so the object equals the result of the completed block of the operations done so far; demanded is only the statement: unchanged or equal to that result, all connectivity answers describing its own containers. An index equal to the number of faces/cells/edges is rejected with IndexError before anything is written by every operation of the unchanged library; the rejection itself is not demanded (an accepted index is counted and skipped), nor is the propagation of the exception (counted)",
@@ -100,7 +126,10 @@ BOUNDS = {
               "(weight 1 + loop_subdivision(2), subdivide_triangles_6(2)) + 7 ZOO specimens + 27 TET complexes (positive, single operations) + 71 graphs "
               "(<= 2 splits), not queried; sort_neighborhoods off: the same + the 87 other rotations of the face lists (weight 1) + TET sorted, queried and "
               "not; face order: the 87 rotations, default configuration, not queried, with the completion-off block; numpy.int64 indices: 40 classes "
-              "(indexed operations only), 27 TET, 71 graphs, queried and not; call forms: 40 SURF classes + 7 ZOO specimens (events of the initial state: 6 global + "
+              "(indexed operations only), 27 TET, 71 graphs, queried and not; corner of listing: 151 re-listings of the 40 classes + 7 ZOO specimens (weight 1), "
+              "27 TET x 2 cell re-listings, 71 graphs, not queried; block histories: per SURF input <= 12 single operations + <= 4 pairs, per ZOO specimen the same, "
+              "per TET complex (both orientations) <= 4 single operations + <= 4 pairs (positive orientation), each as 2 / 3 blocks x 3 editor modes (+ queried between "
+              "blocks for the two non-fresh modes), accessor domains capped at 12; call forms: 40 SURF classes + 7 ZOO specimens (events of the initial state: 6 global + "
               "first face of each arity and the last face for triangulate_face / split_face_as_fan; 2..7 further blocks per event), 27 TET complexes "
               "(positive; 4 events x 3 blocks), 71 graphs (<= 2 edges x 3 calls), 12 pinned signatures with 5 defaults; no connectivity answers judged there"),
     "thorough": ("refined meshes of more than 400 faces are not produced; surface: weight <= 3 on the classes of SURF triangles n<=5, triangle+quad n=4, "
@@ -110,7 +139,9 @@ BOUNDS = {
                  "arguments: every face when the state has <= 6 faces; volume: sequences <= 2 with every cell and face argument at both steps, both cell "
                  "orientations; <= 3 with representatives (positive orientation); polyline: split_edge sequences <= 4; accessor domains capped at 200 arguments; "
                  "completion switches off and blocks left by an exception: as in quick, over the thorough sequences (abandoned prefixes: <= 2 operations); "
-                 "deviations: as in quick, the SURF classes under sort_neighborhoods off at weight <= 2; call forms: as in quick (specimens of the thorough ZOO list)"),
+                 "deviations: as in quick, the SURF classes under sort_neighborhoods off at weight <= 2; corner of listing: 932 re-listings of the classes (every corner of every "
+                 "face with >= 4 sides) + 7 ZOO x 3 rotations (+ loop_subdivision(2), subdivide_triangles_6(2)), 27 TET x 11 even re-listings; block histories: as in quick over the "
+                 "thorough inputs, pairs per (entry point, entry point) class on the SURF inputs, every single volume operation; call forms: as in quick (specimens of the thorough ZOO list)"),
 }
 
 
@@ -217,7 +248,8 @@ def tasks(tier):
             out.append({"fam": "tet", "cap": cap, "complex": x, "variant": variant,
                         "depth": 1 if (tier == "quick" and variant == "sorted") else 2, "all_args": tier == "thorough"})
         if tier == "thorough":
-            out.append({"fam": "tet", "cap": cap, "complex": x, "variant": "positive", "depth": 3, "all_args": False})
+            out.append({"fam": "tet", "cap": cap, "complex": x, "variant": "positive", "depth": 3, "all_args": False,
+                        "lite": {"queried": True, "config_off": True, "abandoned": True, "history": False}})   # histories: run by the depth-2 task
     # polylines
     graphs = []
     for n in (2, 3, 4):
@@ -237,6 +269,35 @@ def tasks(tier):
 UNIT_EXPS = (-100, 100)       # unit of length 2^e: measured - the unchanged library is bitwise scale-equivariant for |e| <= 340
 DEV_UNIT = ["unit=2^%d" % e for e in UNIT_EXPS]
 DEV_SORT, DEV_ORDER, DEV_NPINT = "sort=False", "face_order=rotated", "arg=numpy_int"
+DEV_CORNER = "corner_start=rotated"      # the corner from which each face (cell) is listed
+EVEN_PERMS = [p for p in itertools.permutations(range(4)) if sum(1 for i in range(4) for j in range(i) if p[j] > p[i]) % 2 == 0 and p != (0, 1, 2, 3)]
+CELL_LISTINGS = {"quick": [(1, 2, 0, 3), (1, 0, 3, 2)], "thorough": EVEN_PERMS}     # orientation-preserving re-listings of a tetrahedron
+
+
+def _rot(f, r):
+    r %= len(f)
+    return list(f[r:]) + list(f[:r])
+
+
+def _corner_listings(x, tier):
+    """the complex x with its faces listed from other corners (same cyclic order, so the same oriented complex).
+    quick: every combination of {first, second} corner over the faces with >= 4 sides (triangles as listed), and the
+    listed polygons with every triangle started at its second / third corner; thorough: every combination of every
+    corner over the faces with >= 4 sides, and the {first, second} combinations with the triangles rotated"""
+    name, n, fl, _ = x
+    polys = [i for i, f in enumerate(fl) if len(f) >= 4]
+    has_tri = any(len(f) == 3 for f in fl)
+    out = []
+    for combo in itertools.product(*[range(len(fl[i])) if tier == "thorough" else (0, 1) for i in polys]):
+        for t in ((0, 1, 2) if has_tri else (0,)):
+            if not any(combo) and t == 0:
+                continue                      # the listing of the class itself is a regular input
+            if t and (any(c > 1 for c in combo) or (tier == "quick" and any(combo))):
+                continue
+            shift = dict(zip(polys, combo))
+            g = [_rot(f, shift.get(i, t)) for i, f in enumerate(fl)]
+            out.append([f"{name}k{''.join(map(str, combo))}t{t}", n, g, 1])
+    return out
 ZOO_DEV = ("grid2x3mixed", "grid3x3quad", "octahedron", "cube_quads", "dodecahedron", "annulus3a", "torus3x3q")
 ARGFORM = [None]              # None | "numpy_int": the form in which face / cell / edge indices are handed to the operations
 
@@ -289,6 +350,16 @@ def _deviation_tasks(tier, ins, tets, graphs):
     out.append({"fam": "graph", "dev": DEV_SORT, "lite": lite_ab, "sort": False, "depth": 2, "graphs": graphs})
     # ---- default configuration, every face in position 0 in turn (the listing of the class itself is a regular input)
     surf(DEV_ORDER, [r for x in classes for r in rotations(x, lambda k: range(1, k))], {"queried": False, "config_off": True, "abandoned": False}, 12)
+    # ---- every face listed from another corner (cells: orientation-preserving re-listings; polyline edges: larger end first)
+    surf(DEV_CORNER, [g for x in classes for g in _corner_listings(x, tier)], lite_a, 12, repeated=(tier == "thorough"))
+    for name, p, f in zoo:
+        for r in ((1,) if tier == "quick" else (1, 2, 3)):
+            out.append(dict(common, dev=DEV_CORNER, lite=lite_a, zoo=[f"{name}r{r}", p, [_rot(g, r) for g in f], 1]))
+    for perm in CELL_LISTINGS[tier]:
+        for i in range(0, len(tets), 14):
+            out.append({"fam": "tet", "dev": DEV_CORNER, "lite": lite_a, "cell_listing": list(perm), "cap": 30, "complexes": tets[i:i + 14], "variant": "positive",
+                        "depth": 1, "all_args": False})
+    out.append({"fam": "graph", "dev": DEV_CORNER, "lite": lite_a, "edge_listing": "larger_end_first", "depth": 2, "graphs": graphs})
     # ---- indices handed over as numpy integers (only the operations that take an index)
     surf(DEV_NPINT, [[x[0], x[1], x[2], 1] for x in classes], lite_ab, 20, argform="numpy_int", arg_events_only=True)
     for i in range(0, len(tets), 9):
@@ -345,6 +416,21 @@ def _snap_vol(x):
 
 def _snap_line(x):
     return {"V": _pts(x.vertices), "E": _rows(x.edges)}
+
+
+def _storage_format(M, x):
+    """documented storage format of the vertices of a mesh the library hands out (RawMeshData.prepare, 'called by the
+    constructors of data structures': 'On vertices: casts 3D vectors to mouette.Vec'): every stored vertex is a Vec of
+    three float64. Returns ([label], detail). The row types of edges / faces / cells are not judged (the unchanged
+    library hands back tuples or lists depending on the operation)."""
+    import numpy as np
+    for i, v in enumerate(x.vertices):
+        if not isinstance(v, M.Vec):
+            return ["vertex_not_stored_as_Vec"], {"vertex": i, "stored_as": type(v).__module__ + "." + type(v).__name__}
+        a = np.asarray(v)
+        if a.dtype != np.float64 or a.shape != (3,):
+            return ["vertex_not_three_float64"], {"vertex": i, "dtype": str(a.dtype), "shape": list(a.shape)}
+    return [], {}
 
 
 def _arity_class(faces):
@@ -431,6 +517,7 @@ class SurfCtx:
             pts = [tuple(float(x) * scale for x in p) for p in pts]
         self.M, self.name, self.pts, self.faces, self.depth, self.cap, self.rep = M, name, pts, faces, depth, cap, rep
         self.all_faces, self.is_zoo = all_faces, is_zoo
+        self.do_history = True if lite is None else bool(lite.get("history", False))
         lite = lite or {}
         self.do_queried, self.do_config_off, self.do_abandoned = (lite.get(k, True) for k in ("queried", "config_off", "abandoned"))
         self.arg_events_only = arg_events_only
@@ -646,6 +733,10 @@ def _check_surface_result(cx: SurfCtx, seq, Rm, last_obs, Pex, callee, cls):
     bad = _validity_surface(s, n)
     if bad:
         rep.violation(sub + "valid_mesh", callee, "mismatch:" + bad[0], cls, cx.detail(seq, labels=bad, edges=s["E"][:12])); return s
+    fmt, fdet = _storage_format(M, Rm)
+    if fmt:
+        rep.violation(sub + "valid_mesh", callee, "mismatch:" + fmt[0], "storage_format:mesh_handed_back", cx.detail(seq, **fdet)); return s
+    rep.count("storage_format_judged:surface")
     topo = R.surface_topology(s["F"], n)
     for k in ("chi", "border_loops", "components"):
         if topo[k] != cx.topo0[k]:
@@ -701,6 +792,12 @@ def _check_surface_input_object(cx: SurfCtx, seq, run, sres, queried, callee, su
                                 input_faces=s["F"][:8], input_face_corners=len(s["FC"][0]), **extra))
         return done
     rep.outcome("input_object" if sub == "C13.surf." else sub[4:] + "input_object", state)
+    fmt, fdet = _storage_format(cx.M, m)
+    if fmt:
+        done.add("input_format")
+        if "input_format" not in suppress:
+            rep.violation(sub + "input_object", callee, "side_effect:" + fmt[0], "storage_format:object_passed_in", cx.detail(seq, **fdet, **extra))
+        return done
     if not (queried or state == "equal_to_result" or always_eval):
         return done
     n = len(s["V"])
@@ -861,6 +958,163 @@ def _check_surface_abandoned(cx: SurfCtx, known):
                                                    always_eval=True, extra=extra)
 
 
+# ---- history dimension: SEVERAL editing blocks on one mesh object, the editor objects fresh, re-used or made early
+H_FRESH, H_REUSED, H_EARLY = "fresh_editor_per_block", "one_editor_object_reused", "editors_constructed_before_the_first_block"
+HIST_MODES = (H_FRESH, H_REUSED, H_EARLY)
+
+
+def _history_sequences(known, classify, all_singles=True):
+    """the explored sequences that are replayed as histories of several blocks: every explored single operation (or the
+    first and the last explored one of every kind) and the first explored pair of every class (classify(kind), classify(kind))"""
+    out, seen = [], set()
+    singles = [seq for seq, st in known.items() if len(seq) == 1 and st.get("res") is not None]
+    keep = set(singles)
+    if not all_singles:
+        keep = set()
+        for kind in sorted(set(q[0][0] for q in singles)):
+            mine = [q for q in singles if q[0][0] == kind]
+            keep.update((mine[0], mine[-1]))
+    for seq, st in known.items():
+        if not seq or len(seq) > 2 or st.get("res") is None or (len(seq) == 1 and seq not in keep):
+            continue
+        if len(seq) == 2:
+            key = (classify(seq[0][0]), classify(seq[1][0]))
+            if key in seen:
+                continue
+            seen.add(key)
+        out.append(seq)
+    return out
+
+
+def _check_surface_histories(cx: SurfCtx, known):
+    """history dimension: the operations of an explored sequence ONE PER EDITING BLOCK on one mesh object, followed by
+    one block without operation (k operations = k + 1 blocks, i.e. at least a constructor and two blocks), the editor
+    objects being (a) made afresh just before each block, (b) ONE object entered k + 1 times, (c) k + 1 objects all
+    constructed before the first block is entered (so that the mesh is refined by another object between the
+    construction of an editor and its block); connectivity queried before the first block and between the blocks, or
+    never. The statement quantifies over every mesh its documentation admits - the mesh a block hands back is one - and
+    nothing in the documentation restricts an editor object to one block. Demanded after EVERY block: the block is
+    accepted; the elements at its end are those the mesh hands back; the operation refines the mesh that the previous
+    block handed back (its state is first compared with the state the main exploration validated for the same
+    operations in one block - vertex and face numbering happen to agree in the unchanged library - and otherwise
+    validated against the reference model from the previous state); the mesh handed back is valid and stored in the
+    documented format; the object passed in is that mesh or unchanged (then the next block refines it once more); the block without operation changes nothing. After the last
+    block: topology of the input, connectivity answers for the final containers."""
+    from mouette.mesh.subdivision import SurfaceSubdivision
+    rep, M = cx.rep, cx.M
+    sub = "C13.surf.block_history."
+    n_ops = 0
+    for seq in _history_sequences(known, S_CALLEE.get if cx.all_faces else (lambda k: k in S_REPLACING)):
+        for mode in HIST_MODES:
+            for queried in ((False, True) if (cx.do_queried and mode != H_FRESH) else (False,)):
+                rep.traces += 1
+                nb = len(seq) + 1
+                m = cx.build()
+                cur = {"V": cx.Pf0, "F": cx.F0, "P": [R.W(i) for i in range(len(cx.P0))]}
+                if queried:
+                    cx.warm(m)
+                prev_in = _snap_surf(m)
+                eds = [SurfaceSubdivision(m)] * nb if mode == H_REUSED else [SurfaceSubdivision(m) for _ in range(nb)] if mode == H_EARLY else None
+                ok = True
+                for b in range(nb):
+                    rep.transitions += 1; rep.evaluations += 6
+                    op = seq[b] if b < len(seq) else None
+                    which = "block_without_operation" if op is None else ("first_block" if b == 0 else "later_block")
+                    cls = f"{mode}:{which}:{'queried_between' if queried else 'not_queried'}"
+                    callee = "SurfaceSubdivision.__exit__" if op is None else S_CALLEE[op[0]]
+
+                    def det(**kw):
+                        return cx.detail(seq, blocks=[[list(e)] for e in seq] + [[]], editor_objects=mode, failing_block=b,
+                                         connectivity_queried_before_every_block=queried, **kw)
+                    ed = eds[b] if eds else SurfaceSubdivision(m)
+                    raw, stage = None, "enter"
+                    try:
+                        with ed:
+                            stage = "operation"
+                            if op is not None:
+                                _apply_surf(ed, *op)
+                            raw = _raw_obs(ed.mesh)
+                            stage = "exit"
+                    except Exception as ex:   # noqa
+                        who = {"enter": "SurfaceSubdivision.__enter__", "exit": "SurfaceSubdivision.__exit__"}.get(stage) or _where(ex, "SurfaceSubdivision") or callee
+                        rep.violation(sub + "accepts", who, "raises:" + type(ex).__name__, cls, det(msg=str(ex)[:200])); ok = False; break
+                    Rm = ed.mesh
+                    if type(Rm) is not M.mesh.SurfaceMesh:
+                        rep.violation(sub + "hands_back_a_mesh", callee, "mismatch:type", cls, det(got=type(Rm).__name__)); ok = False; break
+                    o, oi = call(_snap_surf, Rm), call(_snap_surf, m)
+                    if not o.ok or not oi.ok:
+                        rep.violation(sub + "valid_mesh", callee, "mismatch:containers_unreadable", cls, det(msg=o.msg if not o.ok else oi.msg)); ok = False; break
+                    s, nxt = o.value, cur
+                    # ---- the operation refines the mesh handed back by the previous block
+                    if op is None:
+                        if raw["V"] != cur["V"] or raw["F"] != cur["F"]:
+                            rep.violation(sub + "refinement_pattern", callee, "mismatch:block_without_operation_changes_the_elements", cls,
+                                          det(n_faces=[len(cur["F"]), len(raw["F"])], n_vertices=[len(cur["V"]), len(raw["V"])])); ok = False; break
+                    else:
+                        rec = known[seq[:b + 1]]
+                        if raw["V"] == rec["V"] and raw["F"] == rec["F"] and cur["V"] == known[seq[:b]]["V"] and cur["F"] == known[seq[:b]]["F"]:
+                            nxt = {"V": rec["V"], "F": rec["F"], "P": rec["P"]}
+                            rep.count("history:operation_gives_the_state_validated_in_one_block")
+                        else:
+                            try:
+                                Wts, _ = R.validate_surface_step(cur["P"], cx.P0, cur["V"], cur["F"], op[0], None if op[1] is None else [op[1]], raw["V"], raw["F"])
+                                if not F.is_oriented_manifold(raw["F"], len(raw["V"])):
+                                    raise R.StepFailure("valid_mesh", "not_an_oriented_manifold", {})
+                                nxt = {"V": raw["V"], "F": raw["F"], "P": Wts}
+                                rep.count("history:operation_validated_against_the_model")
+                            except R.Degenerate:
+                                rep.count("filtered_coincident_refinement_points"); ok = False; break
+                            except R.StepFailure as sf:
+                                rep.violation(sub + sf.clause, callee, "mismatch:" + sf.label, cls,
+                                              det(n_faces_before_the_block=len(cur["F"]), n_faces_after=len(raw["F"]),
+                                                  n_faces_one_block=len(rec["F"]), **sf.detail)); ok = False; break
+                        n_ops += 1
+                    # ---- what the block hands back
+                    if s["V"] != raw["V"] or s["F"] != raw["F"]:
+                        rep.violation(sub + "hands_back_a_mesh", "SurfaceSubdivision.__exit__", "mismatch:elements_changed_on_exit", cls,
+                                      det(n_faces=[len(raw["F"]), len(s["F"])])); ok = False; break
+                    bad = _validity_surface(s, len(s["V"]))
+                    fmt, fdet = _storage_format(M, Rm)
+                    if bad or fmt:
+                        rep.violation(sub + "valid_mesh", "SurfaceSubdivision.__exit__", "mismatch:" + (bad + fmt)[0], cls,
+                                      det(labels=bad + fmt, n_faces=len(s["F"]), n_face_corners=len(s["FC"][0]), n_edges=len(s["E"]), **fdet)); ok = False; break
+                    if oi.value == s:
+                        cur = nxt
+                    elif oi.value == prev_in:       # the statement allows it: the next block then refines the same mesh once more
+                        rep.count("history:object_passed_in_left_unchanged")
+                    else:
+                        rep.violation(sub + "input_object", "SurfaceSubdivision.__exit__", "side_effect:input_half_updated", cls,
+                                      det(differs_from_result=[k for k in ("V", "E", "F", "FC") if oi.value[k] != s[k]],
+                                          differs_from_preimage=[k for k in ("V", "E", "F", "FC") if oi.value[k] != prev_in[k]],
+                                          n_faces_input=len(oi.value["F"]), n_faces_handed_back=len(s["F"])))
+                        ok = False; break
+                    prev_in = oi.value
+                    rep.outcome("history:" + mode, which + ":" + ("is_the_input" if Rm is m else "equal_to_the_input"))
+                    if queried and b + 1 < nb:
+                        _warm(m, SurfOracle(prev_in["F"], len(prev_in["V"]), prev_in["E"]), cx.events)
+                        m.is_triangular(); m.is_quad()
+                if not ok:
+                    break               # not repeated with connectivity queried between the blocks: ':queried_between' means ONLY then
+                s = prev_in             # the object every block was made for (equal to the mesh handed back, or left unchanged)
+                topo = R.surface_topology(s["F"], len(s["V"]))
+                if any(topo[k] != cx.topo0[k] for k in ("chi", "border_loops", "components")):
+                    rep.violation(sub + "topology", S_CALLEE[seq[-1][0]], "mismatch:topology", f"{mode}:after_the_last_block", det(got=topo, want=cx.topo0)); continue
+                tri = all(len(f) == 3 for f in s["F"]); quad = all(len(f) == 4 for f in s["F"])
+                fails = _eval_accessors(m, SurfOracle(s["F"], len(s["V"]), s["E"]), cx.events, min(cx.cap, 12), rep,
+                                        extra=[("is_triangular", m.is_triangular, tri), ("is_quad", m.is_quad, quad)])
+                if fails:
+                    k = fails[0][2] if fails[0][2].startswith("raises:") else "mismatch:answers"
+                    rep.violation(sub + "result_connectivity", "SurfaceSubdivision.__exit__", k, f"{mode}:after_the_last_block:{'queried_between' if queried else 'not_queried'}",
+                                  det(**_summary(fails))); continue
+                rep.count("history:surface_histories")
+                rep.flag("history_surface_%d_blocks_%s" % (nb, mode))
+                if queried:
+                    rep.flag("history_surface_queried_between_blocks")
+                if any(k in S_REPLACING for k, _ in seq):
+                    rep.flag("history_surface_containers_replaced_%s" % mode)
+    rep.count("history:surface_operations_in_blocks_of_their_own", n_ops)
+
+
 def explore_surface(cx: SurfCtx):
     rep = cx.rep
     init = {"V": cx.Pf0, "F": cx.F0, "E": [tuple(e) for e in cx.E0], "P": [R.W(i) for i in range(len(cx.P0))], "depth": 0}
@@ -965,12 +1219,19 @@ def explore_surface(cx: SurfCtx):
                         frontier.append(seq2)
     if cx.do_abandoned:
         _check_surface_abandoned(cx, known)
+    if cx.do_history:
+        _check_surface_histories(cx, known)
     rep.count("surface_inputs")
     if len(cx.F0[0]) != 3 and len(set(len(f) for f in cx.F0)) > 1:
         rep.flag("non_triangle_in_position_0_of_a_mixed_face_list")
     rep.flag("closed" if cx.closed else "bordered")
     for f in cx.F0:
         rep.flag("arity%d" % min(len(f), 5))
+    diag = [d for f in cx.F0 if len(f) == 4 for d in (tuple(sorted((f[0], f[2]))), tuple(sorted((f[1], f[3]))))]
+    if len(set(diag)) != len(diag):
+        rep.flag("two_quads_share_a_pair_of_opposite_corners")
+        if len(set(tuple(sorted((f[1], f[3]))) for f in cx.F0 if len(f) == 4)) != sum(1 for f in cx.F0 if len(f) == 4):
+            rep.flag("two_quads_share_the_pair_of_their_second_and_fourth_corner")
     if len(rep.samples) < 2:
         rep.sample({"surface": cx.name, "faces": cx.faces, "states": len(seen), "a_sequence": [list(e) for e in max(known, key=len)]})
 
@@ -1023,6 +1284,29 @@ def check_split_double(cx: SurfCtx):
         # in-place function: the documented result IS the input object
         sq = (("FAN", None),) if targets else ()
         doneA = _check_surface_input_object(cx, sq, run, s, queried, callee, doneA)
+        if cx.do_history and not queried and not doneA:
+            # history: a SECOND call on the mesh the first one handed back - it refines the triangles that still have two
+            # border edges (the first call leaves none: checked above) and must hand back a valid mesh again
+            rep.traces += 1; rep.transitions += 1; rep.evaluations += 4
+            seq2 = (("SDB", None), ("SDB", None))
+            o2 = call(sdb, Rm)
+            if not o2.ok:
+                rep.violation("C13.surf.block_history.accepts", callee, exc_kind(o2), "second_call_on_the_mesh_handed_back", cx.detail(seq2, msg=o2.msg)); continue
+            os2 = call(_snap_surf, o2.value)
+            if type(o2.value) is not cx.M.mesh.SurfaceMesh or not os2.ok:
+                rep.violation("C13.surf.block_history.hands_back_a_mesh", callee, "mismatch:type_or_containers", "second_call_on_the_mesh_handed_back", cx.detail(seq2)); continue
+            s2 = os2.value
+            t2 = [i for i, f in enumerate(s["F"]) if sum(1 for e in F.directed_edges(f) if e in bh2) >= 2]
+            try:
+                R.validate_surface_step(Wts, cx.P0, s["V"], s["F"], "FAN", t2, s2["V"], s2["F"])
+            except R.Degenerate:
+                rep.count("filtered_coincident_refinement_points"); continue
+            except R.StepFailure as sf:
+                rep.violation("C13.surf.block_history." + sf.clause, callee, "mismatch:" + sf.label, "second_call_on_the_mesh_handed_back", cx.detail(seq2, targets=t2, **sf.detail)); continue
+            bad = _validity_surface(s2, len(s2["V"])) + _storage_format(cx.M, o2.value)[0]
+            if bad:
+                rep.violation("C13.surf.block_history.valid_mesh", callee, "mismatch:" + bad[0], "second_call_on_the_mesh_handed_back", cx.detail(seq2, labels=bad)); continue
+            rep.count("history:sdb_second_calls")
     if len(results) == 2 and results[False] != results[True]:
         rep.violation("C13.surf.pre_state_independent", callee, "mismatch:result_depends_on_queried_connectivity", cx.icls, cx.detail(seq))
 
@@ -1034,15 +1318,19 @@ def _vol_events():
 
 
 class VolCtx:
-    def __init__(self, M, name, n, cells, variant, depth, cap, all_args, rep, scale=1.0, lite=None):
+    def __init__(self, M, name, n, cells, variant, depth, cap, all_args, rep, scale=1.0, lite=None, listing=None):
         from props import c03
         self.M, self.name, self.rep, self.depth, self.cap, self.all_args = M, name, rep, depth, cap, all_args
         self.c03 = c03
+        self.do_history = True if lite is None else bool(lite.get("history", False))
         lite = lite or {}
         self.do_queried, self.do_config_off, self.do_abandoned = (lite.get(k, True) for k in ("queried", "config_off", "abandoned"))
         ipts = F.moment_curve(n, 1)
         self.pts = ipts if scale == 1.0 else [tuple(float(x) * scale for x in p) for p in ipts]   # exact: scale is a power of two
         self.cells = [tuple(c) for c in cells] if variant == "sorted" else F.orient_cells_positive(cells, ipts)
+        if listing:      # an even permutation of the listing of every cell: the same oriented complex
+            self.cells = [tuple(c[k] for k in listing) for c in self.cells]
+            rep.flag("cells_listed_from_another_corner")
         self.variant = variant
         self.sort = bool(M.config.sort_neighborhoods)
         self.events = [e for e in c03._events(self.sort) if e.name not in ("enable_boundary_connectivity", "extract_boundary_of_volume")]
@@ -1176,6 +1464,10 @@ def _check_volume_result(cx: VolCtx, seq, Rm, last_obs, Pex, callee, cls):
     bad = _validity_volume(s)
     if bad:
         rep.violation(sub + "valid_mesh", callee, "mismatch:" + bad[0], cls, cx.detail(seq, labels=bad, result_cells=s["C"])); return s
+    fmt, fdet = _storage_format(M, Rm)
+    if fmt:
+        rep.violation(sub + "valid_mesh", callee, "mismatch:" + fmt[0], "storage_format:mesh_handed_back", cx.detail(seq, **fdet)); return s
+    rep.count("storage_format_judged:volume")
     topo = R.volume_topology(s["C"], len(s["V"]))
     for k in sorted(topo):
         if topo[k] != cx.topo0[k] and not (k == "max_cells_per_triangle" and topo[k] <= 2):
@@ -1216,6 +1508,12 @@ def _check_volume_input_object(cx: VolCtx, seq, run, sres, queried, suppress=(),
                                 differs_from_result=[k for k in keys if sres is None or s[k] != sres[k]], **extra))
         return done
     rep.outcome("vol_input_object" if sub == "C13.vol." else sub[4:] + "input_object", state)
+    fmt, fdet = _storage_format(cx.M, m)
+    if fmt:
+        done.add("input_format")
+        if "input_format" not in suppress:
+            rep.violation(sub + "input_object", callee, "side_effect:" + fmt[0], "storage_format:object_passed_in", cx.detail(seq, **fdet, **extra))
+        return done
     if _validity_volume(s) or "input_caches" in suppress:
         return done
     fails = _eval_accessors(m, cx.oracle(s), cx.events, min(cx.cap, 60), rep)
@@ -1355,6 +1653,114 @@ def _check_volume_abandoned(cx: VolCtx, known):
                 done = _check_volume_input_object(cx, seq, run, sres, queried, done, sub=sub, cls_prefix=label, extra=extra)
 
 
+def _check_volume_histories(cx: VolCtx, known):
+    """several editing blocks on one volume mesh, one operation per block + one block without operation, the editor
+    objects fresh / re-used / constructed before the first block (see _check_surface_histories). A face index of a later
+    block is an index into the face list of the mesh the previous block handed back (completed on exit), so every
+    operation is validated against the reference model from the state handed back by the previous block."""
+    from mouette.mesh.subdivision import VolumeSubdivision
+    rep, M = cx.rep, cx.M
+    sub = "C13.vol.block_history."
+    n_ops = 0
+    for seq in _history_sequences(known, lambda k: k, cx.all_args):
+        for mode in HIST_MODES:
+            for queried in ((False, True) if (cx.do_queried and mode != H_FRESH) else (False,)):
+                rep.traces += 1
+                nb = len(seq) + 1
+                m = cx.build()
+                cur = {"V": cx.s0["V"], "C": cx.s0["C"], "F": cx.s0["F"], "P": [R.W(i) for i in range(len(cx.P0))]}
+                if queried:
+                    cx.warm(m)
+                prev_in = _snap_vol(m)
+                eds = [VolumeSubdivision(m)] * nb if mode == H_REUSED else [VolumeSubdivision(m) for _ in range(nb)] if mode == H_EARLY else None
+                ok = True
+                for b in range(nb):
+                    rep.transitions += 1; rep.evaluations += 6
+                    op = seq[b] if b < len(seq) else None
+                    which = "block_without_operation" if op is None else ("first_block" if b == 0 else "later_block")
+                    cls = f"{mode}:{which}:{'queried_between' if queried else 'not_queried'}"
+                    callee = "VolumeSubdivision.__exit__" if op is None else V_CALLEE[op[0]]
+
+                    def det(**kw):
+                        return cx.detail(seq, blocks=[[list(e)] for e in seq] + [[]], editor_objects=mode, failing_block=b,
+                                         connectivity_queried_before_every_block=queried, **kw)
+                    ed = eds[b] if eds else VolumeSubdivision(m)
+                    raw, stage = None, "enter"
+                    try:
+                        with ed:
+                            stage = "operation"
+                            if op is not None:
+                                if op[0] == "CFAN": ed.split_cell_as_fan(_arg(op[1]))
+                                else: ed.split_tet_from_face_center(_arg(op[1]))
+                            raw = {"V": _pts(ed.mesh.vertices), "C": _rows(ed.mesh.cells)}
+                            stage = "exit"
+                    except Exception as ex:   # noqa
+                        who = {"enter": "VolumeSubdivision.__enter__", "exit": "VolumeSubdivision.__exit__"}.get(stage) or _where(ex, "VolumeSubdivision") or callee
+                        rep.violation(sub + "accepts", who, "raises:" + type(ex).__name__, cls, det(msg=str(ex)[:200])); ok = False; break
+                    Rm = ed.mesh
+                    if type(Rm) is not M.mesh.VolumeMesh:
+                        rep.violation(sub + "hands_back_a_mesh", callee, "mismatch:type", cls, det(got=type(Rm).__name__)); ok = False; break
+                    o, oi = call(_snap_vol, Rm), call(_snap_vol, m)
+                    if not o.ok or not oi.ok:
+                        rep.violation(sub + "valid_mesh", callee, "mismatch:containers_unreadable", cls, det(msg=o.msg if not o.ok else oi.msg)); ok = False; break
+                    s = o.value
+                    if op is None:
+                        if raw["V"] != cur["V"] or raw["C"] != cur["C"]:
+                            rep.violation(sub + "refinement_pattern", callee, "mismatch:block_without_operation_changes_the_elements", cls,
+                                          det(n_cells=[len(cur["C"]), len(raw["C"])], n_vertices=[len(cur["V"]), len(raw["V"])])); ok = False; break
+                    else:
+                        try:
+                            Wts, _ = R.validate_volume_step(cur["P"], cx.P0, cur["V"], cur["C"], cur["F"], op[0], op[1], raw["V"], raw["C"])
+                            rep.count("history:operation_validated_against_the_model")
+                        except R.Degenerate:
+                            rep.count("filtered_coincident_refinement_points"); ok = False; break
+                        except R.StepFailure as sf:
+                            rep.violation(sub + sf.clause, callee, "mismatch:" + sf.label, cls,
+                                          det(cells_before_the_block=cur["C"], faces_before_the_block=cur["F"], cells_after=raw["C"], **sf.detail)); ok = False; break
+                        n_ops += 1
+                    if s["V"] != raw["V"] or s["C"] != raw["C"]:
+                        rep.violation(sub + "hands_back_a_mesh", "VolumeSubdivision.__exit__", "mismatch:elements_changed_on_exit", cls,
+                                      det(n_cells=[len(raw["C"]), len(s["C"])])); ok = False; break
+                    bad = _validity_volume(s)
+                    fmt, fdet = _storage_format(M, Rm)
+                    if bad or fmt:
+                        rep.violation(sub + "valid_mesh", "VolumeSubdivision.__exit__", "mismatch:" + (bad + fmt)[0], cls,
+                                      det(labels=bad + fmt, result_cells=s["C"], n_faces=len(s["F"]), n_edges=len(s["E"]), **fdet)); ok = False; break
+                    if oi.value == s:
+                        if op is not None:
+                            cur = {"V": s["V"], "C": s["C"], "F": s["F"], "P": Wts}
+                    elif oi.value == prev_in:       # the statement allows it: the next block then refines the same mesh once more
+                        rep.count("history:object_passed_in_left_unchanged")
+                    else:
+                        rep.violation(sub + "input_object", "VolumeSubdivision.__exit__", "side_effect:input_half_updated", cls,
+                                      det(differs_from_result=[k for k in ("V", "E", "F", "FC", "C", "CC", "CF") if oi.value[k] != s[k]],
+                                          differs_from_preimage=[k for k in ("V", "E", "F", "FC", "C", "CC", "CF") if oi.value[k] != prev_in[k]]))
+                        ok = False; break
+                    prev_in = oi.value
+                    rep.outcome("history:vol:" + mode, which + ":" + ("is_the_input" if Rm is m else "equal_to_the_input"))
+                    if queried and b + 1 < nb:
+                        _warm(m, cx.oracle(prev_in), cx.events)
+                if not ok:
+                    break
+                s = prev_in             # the object every block was made for
+                topo = R.volume_topology(s["C"], len(s["V"]))
+                if any(topo[k] != cx.topo0[k] and not (k == "max_cells_per_triangle" and topo[k] <= 2) for k in topo):
+                    rep.violation(sub + "topology", V_CALLEE[seq[-1][0]], "mismatch:topology", f"{mode}:after_the_last_block", det(got=topo, want=cx.topo0)); continue
+                v1 = R.volume6_abs([R.pos(w, cx.P0) for w in cur["P"]], s["C"])
+                if v1 != cx.vol0:
+                    rep.violation(sub + "volume", V_CALLEE[seq[-1][0]], "mismatch:total_volume", f"{mode}:after_the_last_block", det(got6=str(v1), want6=str(cx.vol0))); continue
+                fails = _eval_accessors(m, cx.oracle(s), cx.events, min(cx.cap, 12), rep)
+                if fails:
+                    k = fails[0][2] if fails[0][2].startswith("raises:") else "mismatch:answers"
+                    rep.violation(sub + "result_connectivity", "VolumeSubdivision.__exit__", k, f"{mode}:after_the_last_block:{'queried_between' if queried else 'not_queried'}",
+                                  det(**_summary(fails))); continue
+                rep.count("history:volume_histories")
+                rep.flag("history_volume_%d_blocks_%s" % (nb, mode))
+                if queried:
+                    rep.flag("history_volume_queried_between_blocks")
+    rep.count("history:volume_operations_in_blocks_of_their_own", n_ops)
+
+
 def _vol_args(st, prev, all_args):
     C, Fl = st["C"], st["F"]
     if all_args or prev is None:
@@ -1454,6 +1860,8 @@ def explore_volume(cx: VolCtx):
                         frontier.append(seq2)
     if cx.do_abandoned:
         _check_volume_abandoned(cx, known)
+    if cx.do_history:
+        _check_volume_histories(cx, known)
     rep.count("volume_inputs")
     if len(cx.cells) >= 2:
         rep.flag("tet_shared_face")
@@ -1616,6 +2024,10 @@ def explore_polyline(M, n, edges, depth, rep: Report, scale=1.0, lite=None):
                 bad = _validity_line(s)
                 if bad:
                     V("valid_mesh", "mismatch:" + bad[0], dict(det, labels=bad, result_edges=[list(x) for x in s["E"]])); continue
+                fmt, fdet = _storage_format(M, res)
+                if fmt:
+                    V("valid_mesh", "mismatch:" + fmt[0], dict(det, **fdet), cls="storage_format:mesh_handed_back"); continue
+                rep.count("storage_format_judged:polyline")
                 # counts, originals, position of the new vertex, the refined edge set
                 n0 = len(st["V"])
                 if len(s["V"]) != n0 + 1 or len(s["E"]) != len(st["E"]) + 1:
@@ -2111,10 +2523,14 @@ def _run_task(M, task, rep: Report):
                 check_split_double(cx)
     elif fam == "tet":
         for name, n, cells in (task["complexes"] if "complexes" in task else [task["complex"]]):
-            cx = VolCtx(M, name + sfx, n, [tuple(c) for c in cells], task["variant"], task["depth"], task["cap"], task["all_args"], rep, scale, lite)
+            cx = VolCtx(M, name + sfx, n, [tuple(c) for c in cells], task["variant"], task["depth"], task["cap"], task["all_args"], rep, scale, lite,
+                        task.get("cell_listing"))
             explore_volume(cx)
     elif fam == "graph":
         for n, edges in task["graphs"]:
+            if task.get("edge_listing") == "larger_end_first":
+                edges = [(b, a) for a, b in edges]
+                rep.flag("edges_listed_larger_end_first")
             explore_polyline(M, n, [tuple(e) for e in edges], task["depth"], rep, scale, lite)
     else:
         raise ValueError(fam)
@@ -2174,6 +2590,8 @@ def finish(tier, rep: Report):
     want[DEV_ORDER] = {"surface_inputs": 87, "ops": ("T", "TF", "FAN", "L", "Q3", "S6", "SDB"), "flag": "non_triangle_in_position_0_of_a_mixed_face_list"}
     want[DEV_NPINT] = {"surface_inputs": 40, "volume_inputs": 27, "polyline_inputs": 71, "ops": ("TF", "FAN", "CFAN", "FSPLIT", "split_edge"),
                        "flag": "indices_given_as_numpy_integers"}
+    want[DEV_CORNER] = {"surface_inputs": 158 if tier == "quick" else 953, "volume_inputs": 27 * len(CELL_LISTINGS[tier]), "polyline_inputs": 71,
+                        "ops": tuple(k for k in ALL_OPS if tier == "thorough" or k not in ("L2", "S6x2")), "flag": "cells_listed_from_another_corner"}
     for d, w in want.items():
         if not rep.counters.get(d + ":tasks"):
             fails.append(f"deviation {d}: no task"); continue
@@ -2207,6 +2625,35 @@ def finish(tier, rep: Report):
         fails.append(f"deviation {DEV_SORT}: the object passed in was never judged")
     if not rep.counters.get(DEV_ORDER + ":config_off:surface_blocks"):
         fails.append(f"deviation {DEV_ORDER}: no block was run with edge completion off")
+    for f in ("edges_listed_larger_end_first", "two_quads_share_a_pair_of_opposite_corners", "two_quads_share_the_pair_of_their_second_and_fourth_corner",
+              "quad_with_taken_diagonal"):
+        if DEV_CORNER + ":" + f not in rep.flags:
+            fails.append(f"deviation {DEV_CORNER}: coverage flag missing: {f}")
+    if len(rep.outcomes.get(DEV_CORNER + ":T", ())) < 2:
+        fails.append(f"deviation {DEV_CORNER}: triangulate produced a single distinct outcome")
+    # ---- history dimension: several blocks on one mesh object, editor objects fresh / re-used / constructed early
+    for fam, sizes in (("surface", (2, 3)), ("volume", (2, 3))):
+        for mode in HIST_MODES:
+            for nb in sizes:
+                if f"history_{fam}_{nb}_blocks_{mode}" not in rep.flags:
+                    fails.append(f"block histories: no {fam} history of {nb} blocks was completed with {mode}")
+            if len(rep.outcomes.get(("history:" if fam == "surface" else "history:vol:") + mode, ())) < 3:
+                fails.append(f"block histories ({fam}, {mode}): first block / later block / block without operation were not all observed")
+        if f"history_{fam}_queried_between_blocks" not in rep.flags:
+            fails.append(f"block histories: no {fam} history with connectivity queried between the blocks")
+        if not rep.counters.get(f"history:{fam}_histories") or not rep.counters.get(f"history:{fam}_operations_in_blocks_of_their_own"):
+            fails.append(f"block histories: nothing counted for {fam}")
+    for mode in HIST_MODES:
+        if "history_surface_containers_replaced_" + mode not in rep.flags:
+            fails.append(f"block histories: no block that replaces the containers was run with {mode}")
+    if not rep.counters.get("history:operation_validated_against_the_model") or not rep.counters.get("history:operation_gives_the_state_validated_in_one_block"):
+        fails.append("block histories: both ways of validating an operation (state of the one-block run / reference model) should have been used")
+    if not rep.counters.get("history:sdb_second_calls"):
+        fails.append("block histories: split_double_boundary_edges_triangles was never called a second time")
+    # ---- documented storage format of the vertices
+    for fam in ("surface", "volume", "polyline"):
+        if not rep.counters.get("storage_format_judged:" + fam):
+            fails.append(f"storage format: no {fam} mesh handed back was judged")
     # ---- call forms and defaults: every entry of the pinned table exercised, every entry point called by keyword
     if rep.counters.get("forms:signature_guards") != 1:
         fails.append("the signature guard did not run exactly once")
